@@ -198,9 +198,8 @@ def sched_random(rng):
         sets = [("high %d" % hi), ("low %d" % lo)]
         rng.shuffle(sets)
         client += sets[:rng.randint(1, 2)]
-    if kind not in (K_FILE_IN, K_FILE_OUT) and rng.random() < 0.15:
-        # interval timers (the disk engine defers STRICT deliveries of an active operation: not modelled)
-        client.append("interval %d %d" % (rng.choice([200000, 1000000, 3000000]), rng.choice([0, 1, 1])))
+    # (interval timers are exercised by directed executions only: a timer that may fire between any
+    # two steps makes the silent-step search of IoTrace expensive on long random histories)
     nops = rng.randint(1, 6)
     rtotal = 0
     # bound the number of handler invocations of one operation (len / high water)
@@ -342,6 +341,11 @@ DIRECTED = [
     "exec 1 %d 0 0\nhqblock\nwrite 4 1 0 0\npr -1\nsleep 20000\nstop\nwaitcleanup 100000\nhqunblock\nend",
     # a write parked on a full pipe, then the reader goes away: must complete (with an error)
     "exec 1 %d 0 0\nwrite 150000 1 0 0\nwaith 1 50000\nsleep 5000\nph\nstalled 1 4000000\nend",
+    # dispatch_io_set_interval, with and without DISPATCH_IO_STRICT_INTERVAL
+    "exec 0 %d 0 0\ninterval 300000 1\nlow 50\nread 100\npw 10\nsleep 2000\npw 10\nsleep 2000\npw 80\nend",
+    "exec 1 %d 0 0\ninterval 300000 0\nlow 4\nwrite 200000 1 0 0\npr 50000\nsleep 2000\npr 50000\nsleep 3000\npr -1\nend",
+    "exec 2 %d 0 0\ninterval 500000 1\nread 20\nwrite 300000 1 0 0\npw 5\nsleep 3000\npr 1000\nstop\nend",
+    "exec 0 %d 2 0\ninterval 400000 0\nhigh 8\nlow 8\nread 40\npw 20\nsleep 1500\npw 20\nend",
     # the same on a socketpair whose peer closes with unread data (race dependent: two attempts)
     "exec 2 %d 0 0\nhigh 2062\nread 66000\nwrite 400000 1 0 0\npw 33000\nsleep 3000\nph\nstalled 2 3000000\nend",
     "exec 2 %d 0 0\nhigh 2062\nread 66000\nwrite 400000 1 0 0\npw 33000\nsleep 1000\nph\nstalled 2 3000000\nend",
